@@ -620,3 +620,96 @@ func resolveFieldLoad(v ssa.Value) ssa.Value {
 	}
 	return v
 }
+
+// protoOp classifies a call as an operation on an *FProtocol value:
+// op is the method name for header/message operations, "body.Write" /
+// "body.Read" for a struct written to / read from the protocol.
+func protoOp(c ssax.Call) (proto ssa.Value, op string) {
+	isFProto := func(v ssa.Value) bool { return ssax.TypeNamed(v.Type(), "", "FProtocol") }
+	if c.Static != nil && c.Static.Signature.Recv() != nil && len(c.Common.Args) > 0 && isFProto(c.Common.Args[0]) &&
+		ssax.TypeNamed(c.Static.Signature.Recv().Type(), "", "FProtocol") {
+		return ssax.Strip(c.Common.Args[0]), c.Static.Name()
+	}
+	if c.Method != nil && ssax.TypeNamed(c.Common.Value.Type(), "thrift", "TProtocol") {
+		v := ssax.Strip(c.Common.Value)
+		if u, ok := v.(*ssa.UnOp); ok && u.Op == token.MUL {
+			if fa, ok := u.X.(*ssa.FieldAddr); ok && isFProto(fa.X) {
+				return ssax.Strip(fa.X), c.Method.Name()
+			}
+		}
+	}
+	name := c.ShortName()
+	if name == "Write" || name == "Read" {
+		for _, a := range c.Args() {
+			if mi, ok := a.(*ssa.MakeInterface); ok && isFProto(mi.X) {
+				return ssax.Strip(mi.X), "body." + name
+			}
+		}
+	}
+	return nil, ""
+}
+
+// seqStep is one step of an expected operation sequence.
+type seqStep struct {
+	Name string
+	P    ssax.Pred
+}
+
+// checkSequence: on every path from `from` to a return satisfying goal each
+// step occurs exactly once, and the steps occur in the given order.
+func checkSequence(ctx *core.Ctx, r *RT, rule, construct string, fn *ssa.Function, from ssa.Instruction, steps []seqStep, goal func(*ssa.Return) bool) {
+	okAll := true
+	var firsts []ssa.Instruction
+	for _, s := range steps {
+		mn, mx := ssax.CountOnPathsTo(fn, from, s.P, goal)
+		if mn != 1 || mx != 1 {
+			okAll = false
+			ctx.Violate(rule, construct+" › "+s.Name+" exactly once", fnPos(r, fn), sprintf("%s occurs %d..%d times on a success path (must be exactly once)", s.Name, mn, mx))
+		}
+		var f ssa.Instruction
+		ssax.Instrs(fn, func(in ssa.Instruction) {
+			if f == nil && s.P(in) && (from == nil || ssax.Dominates(from, in)) {
+				f = in
+			}
+		})
+		firsts = append(firsts, f)
+	}
+	for i := 0; i+1 < len(steps); i++ {
+		a, b := firsts[i], firsts[i+1]
+		if a == nil || b == nil {
+			continue
+		}
+		if !ssax.Dominates(a, b) {
+			okAll = false
+			ctx.Violate(rule, construct+" › "+steps[i].Name+" ≺ "+steps[i+1].Name, r.IPos(b), steps[i+1].Name+" is not preceded by "+steps[i].Name+" on every path")
+		}
+	}
+	if okAll {
+		var names []string
+		for _, s := range steps {
+			names = append(names, s.Name)
+		}
+		ctx.Discharge(rule, construct, fnPos(r, fn), "each exactly once and in order on every success path: "+strings.Join(names, " ≺ "))
+	}
+}
+
+func nilErrorReturn(ret *ssa.Return) bool {
+	if len(ret.Results) == 0 {
+		return true
+	}
+	last := ret.Results[len(ret.Results)-1]
+	c, ok := ssax.Strip(ResolveLocal(last)).(*ssa.Const)
+	return ok && c.IsNil()
+}
+
+// protoStep builds a predicate for "operation op on protocol value proto".
+func protoStep(proto ssa.Value, op string) ssax.Pred {
+	return func(in ssa.Instruction) bool {
+		c, ok := ssax.AsCall(in)
+		if !ok {
+			return false
+		}
+		p, o := protoOp(c)
+		return o == op && p == ssax.Strip(proto)
+	}
+}
